@@ -87,6 +87,15 @@ type fnCtx struct {
 	monadic bool
 }
 
+func (c *fnCtx) isLocal(n string) bool {
+	for _, l := range c.locals {
+		if l == n {
+			return true
+		}
+	}
+	return false
+}
+
 func (c *fnCtx) fresh() string { c.tmp++; return fmt.Sprintf("t%d'", c.tmp) }
 
 // expression translation; binds collects `let t ← …` lines that must precede the use.
@@ -114,6 +123,12 @@ func (c *fnCtx) expr(e ast.Expr, binds *[]string, intMode bool) string {
 		if b, ok := x.X.(*ast.Ident); ok && c.hasSpec && b.Name == c.specVar {
 			specFields[x.Sel.Name] = true
 			return "spec." + x.Sel.Name
+		}
+		// package-qualified constant from the whitelist's const table, e.g. common.ATTESTATION_SUBNET_COUNT
+		if b, ok := x.X.(*ast.Ident); ok && c.ptypes[b.Name] == "" && !c.isLocal(b.Name) {
+			if v, ok := cfg.Consts[x.Sel.Name]; ok {
+				return v
+			}
 		}
 		fatal(x.Pos(), "unsupported selector")
 	case *ast.UnaryExpr:
@@ -192,6 +207,21 @@ func (c *fnCtx) expr(e ast.Expr, binds *[]string, intMode bool) string {
 		// conversion to a uint64-like named type: identity
 		if fn, ok := x.Fun.(*ast.Ident); ok && len(x.Args) == 1 && (u64[fn.Name] || fn.Name == "uint64") {
 			return c.expr(x.Args[0], binds, intMode)
+		}
+		// package-qualified conversion to a uint64-like named type, e.g. common.CommitteeIndex(x): identity
+		if fn, ok := x.Fun.(*ast.SelectorExpr); ok && len(x.Args) == 1 && u64[fn.Sel.Name] {
+			if b, ok := fn.X.(*ast.Ident); ok && c.ptypes[b.Name] == "" && !c.isLocal(b.Name) {
+				return c.expr(x.Args[0], binds, intMode)
+			}
+		}
+		// Go 1.21 builtins min/max on two unsigned operands
+		if fn, ok := x.Fun.(*ast.Ident); ok && (fn.Name == "min" || fn.Name == "max") && len(x.Args) == 2 && !intMode && leanName[fn.Name] == "" {
+			l := c.expr(x.Args[0], binds, intMode)
+			r := c.expr(x.Args[1], binds, intMode)
+			if fn.Name == "min" {
+				return "(if " + l + " ≤ " + r + " then " + l + " else " + r + ")"
+			}
+			return "(if " + l + " ≥ " + r + " then " + l + " else " + r + ")"
 		}
 		// call of a function-typed parameter
 		if fn, ok := x.Fun.(*ast.Ident); ok && c.funVars[fn.Name] {
